@@ -370,6 +370,11 @@ where
     fmt_subscriber::Subscriber<Registry, N, E, W>: subscribe::Subscribe<Registry>,
 {
     #[inline]
+    fn on_register_dispatch(&self, dispatch: &tracing_core::Dispatch) {
+        self.inner.on_register_dispatch(dispatch)
+    }
+
+    #[inline]
     fn register_callsite(&self, meta: &'static Metadata<'static>) -> Interest {
         self.inner.register_callsite(meta)
     }
